@@ -125,8 +125,23 @@ func runC06(r *Run, p *Prog) {
 				look := "ext(lookup(" + T.T(mu.Map) + "," + key + "),1)"
 				// the lookup is on a load of the same member of the same object
 				okFact := false
+				// a map[string]bool used as a set: `if set[name]` is the membership test provided every insert stores true
+				plain := "lookup(" + T.T(mu.Map) + "," + key + ")"
+				allTrue := true
+				for _, b2 := range ml.Blocks {
+					for _, in2 := range b2.Instrs {
+						if mu2, ok := in2.(*ssa.MapUpdate); ok && mu2.Map == mu.Map {
+							if k, isK := mu2.Value.(*ssa.Const); !isK || constTerm(k) != "const:true" {
+								allTrue = false
+							}
+						}
+					}
+				}
 				for _, f := range T.FactsAt(b) {
 					if f.Op == "EQ" && (f.A == "const:false" && strip(f.B) == strip(look) || f.B == "const:false" && strip(f.A) == strip(look)) {
+						okFact = true
+					}
+					if allTrue && f.Op == "EQ" && (f.A == "const:false" && strip(f.B) == strip(plain) || f.B == "const:false" && strip(f.A) == strip(plain)) {
 						okFact = true
 					}
 				}
